@@ -168,3 +168,32 @@ func TestVPKnown_C31_doubleTimer(t *testing.T) {
 		}
 	}
 }
+
+// TestVPKnown_C31_staleTimer replays the saved reproduction: a timer fires, and before its
+// goroutine gets the reconnector's lock the address is cancelled and scheduled afresh. The
+// late goroutine (played here by calling the timer's function with the number it was armed
+// with) must find that it was overtaken and start nothing; the fresh schedule's own timer is
+// an hour away.
+func TestVPKnown_C31_staleTimer(t *testing.T) {
+	started := 0
+	var mu sync.Mutex
+	r := NewReconnector(ReconnectConfig{InitialDelay: time.Hour, MaxDelay: time.Hour, Multiplier: 2}, func(string) error {
+		mu.Lock()
+		started++
+		mu.Unlock()
+		return fmt.Errorf("refused")
+	})
+	defer r.Stop()
+	r.Schedule("peer")
+	r.mu.Lock()
+	old := r.states["peer"].gen
+	r.mu.Unlock()
+	r.ResetAll()
+	r.Schedule("peer")
+	r.attemptReconnect("peer", old) // the timer that had fired before ResetAll stopped it
+	mu.Lock()
+	defer mu.Unlock()
+	if started != 0 {
+		t.Fatalf("VPFAIL C31 an attempt started at once after cancel + Schedule (initial delay 1h): a timer armed before the cancel ran against the state created after it")
+	}
+}
